@@ -138,7 +138,7 @@ func (c18) Plan(tier string, seed int64) []mon.Workload {
 	return []mon.Workload{
 		{Name: "stale", N: int64(len(c18Positions) * len(c18NVs) * len(c18Pre)), Exhaustive: true},
 		{Name: "programs", N: n},
-		{Name: "scope", N: int64(len(c18Loops) * len(c18Exits) * len(c18Wraps) * len(c18Tails)), Exhaustive: true},
+		{Name: "scope", N: int64(len(c18Loops) * len(c18Exits) * len(c18Wraps) * len(c18Tails) * c18Depths), Exhaustive: true},
 		{Name: "map-iteration", N: n / 10},
 		{Name: "slice-copy", N: int64(len(c18SliceForms) * len(c18SliceWrites)), Exhaustive: true},
 		{Name: "literal-fresh", N: int64(len(c18Literals) * len(c18LitWrites) * 2), Exhaustive: true},
@@ -166,9 +166,19 @@ var c18Loops = []string{
 }
 var c18Exits = []string{"p(\"body\")", "if b == 1 || b == \"1\" { break }", "if b == 1 || b == \"1\" { continue }", "if true { if b == 0 || b == \"0\" { break } }"}
 var c18Wraps = []string{"%s", "if true {\n%s}\n", "for j = 0; j < 2; j = j + 1 {\n  READ\n%s}\n", "if true {\n%s%s  READ\n}\n", "o = 1\n%sif true {\n  o = 2\n}\n"}
-var c18Tails = []string{"p(i)", "p(b)", "p(c)", "p(j)", "p(o)", "p(\"ok\")", "b = 5\np(b)"}
+var c18Tails = []string{"p(i)", "p(b)", "p(c)", "p(j)", "p(o)", "p(\"ok\")", "b = 5\np(b)",
+	// the read sits in a NEW scope opened right after the loop, at the same depth
+	"if true { p(i) }", "if true { p(b) }", "for z in [1] { p(i) }", "for ; ; {\n  p(c)\n  break\n}", "if i == 3 { p(\"stale\") }"}
+
+// every scope program again inside 0..6 enclosing blocks (frames of the
+// scope stack may be pooled or inlined up to some depth)
+const c18Depths = 7
+
+var c18DepthWraps = []string{"if true {\n", "for q%d = 0; q%d < 1; q%d = q%d + 1 {\n", "for r%d in [1] {\n"}
 
 func c18Scope(i int64) []*gt.T {
+	depth := int(i % c18Depths)
+	i /= c18Depths
 	ti := int(i % int64(len(c18Tails)))
 	i /= int64(len(c18Tails))
 	wi := int(i % int64(len(c18Wraps)))
@@ -178,6 +188,9 @@ func c18Scope(i int64) []*gt.T {
 	loop := strings.ReplaceAll(c18Loops[li], "EXIT", c18Exits[ei])
 	read := "if j == 1 { " + c18Tails[ti] + " }"
 	text := strings.ReplaceAll(strings.ReplaceAll(c18Wraps[wi], "%s", loop), "READ", read) + c18Tails[ti] + "\np(\"end\")\n"
+	for d := depth; d > 0; d-- {
+		text = strings.ReplaceAll(c18DepthWraps[(d+li)%len(c18DepthWraps)], "%d", fmt.Sprint(d)) + text + "}\n"
+	}
 	o := drive.Parse("scope", text)
 	if o.Err != nil {
 		panic("c18: scope program does not parse: " + text + ": " + o.Err.Error())
